@@ -167,6 +167,9 @@ func (p plantT) strata2() []string {
 // docCommentOK — COMMENT_*: "Checks that … have non-empty comments."  A comment documents the element
 // when some line of it says something; a line that only carries a `buf:lint:ignore` directive does not.
 func docCommentOK(c []string) bool {
+	if isRaw(c) {
+		return c[5] == "1" // the shape table's documentation-level verdict (comments.go)
+	}
 	for _, l := range c {
 		t := strings.TrimSpace(l)
 		if t != "" && !strings.HasPrefix(t, "buf:lint:ignore") {
